@@ -8,6 +8,7 @@
 (* crash / foreign / die events:                                           *)
 (*   [e, i, k, from, to, s, fin, rt, x, c,                                 *)
 (*    pre  : [p, q]              contents just before this call,           *)
+(*    mid  : [p, q]              contents right after it returned,         *)
 (*    st   : [p, q, l, al, fn, mp] projection just after it,               *)
 (*    opre : [p, q], al0         contents / alive set when the operation   *)
 (*                               started]                                  *)
@@ -41,23 +42,34 @@ Live(c, me, al) == Names(c) # 0 /\ Names(c) # me /\ Names(c) \in al
 DeadPid(c, al) == Names(c) # 0 /\ Names(c) \notin al
 Get(r, x) == IF x = "p" THEN r.p ELSE r.q
 
-PVerdict(e) ==
+(* clauses about one observed instant s (contents of the two names) against the contents pre  *)
+(* just before the call: s ranges over the instant right after the call returned (mid) and the *)
+(* instant just before the next call / the end of the operation (st).                          *)
+Instant(e, s) ==
   LET me == e.i
       al == Range(e.st.al)                 \* processes alive at this instant
+      createlike == e.k \in {"create", "rename", "reload"}
+  IN
+  IF \E x \in Paths : Live(Get(e.pre, x), me, al) /\ Get(s, x) # Get(e.pre, x)
+  THEN (IF createlike /\ e.s \notin {"uopen", "uunlink"} THEN "RefusesLiveForeign" ELSE "NeverDeletesForeign")
+  ELSE IF \E x \in Paths : Get(s, x) \notin {Get(e.pre, x), 0, me}
+  THEN "NeverPartialContent"
+  ELSE IF e.k = "unlink" /\ \E x \in Paths : Get(e.pre, x) # 0 /\ Get(s, x) = 0 /\ Get(e.pre, x) # me
+  THEN "UnlinkOnlyOwn"
+  ELSE IF e.k \in {"rename", "reload"} /\ e.from # e.to
+          /\ Get(s, e.from) # Get(e.pre, e.from) /\ Get(e.pre, e.from) # me
+  THEN "RenameOnlyOwn"
+  ELSE "ok"
+
+PVerdict(e) ==
+  LET me == e.i
       al0 == Range(e.al0)
       tgt == IF e.k \in {"rename", "reload"} THEN e.to ELSE e.from
       createlike == e.k \in {"create", "rename", "reload"}
   IN
   IF e.e \notin {"sys", "crash"} THEN "ok"
-  ELSE IF \E x \in Paths : Live(Get(e.pre, x), me, al) /\ Get(e.st, x) # Get(e.pre, x)
-       THEN (IF createlike /\ e.s \notin {"uopen", "uunlink"} THEN "RefusesLiveForeign" ELSE "NeverDeletesForeign")
-  ELSE IF \E x \in Paths : Get(e.st, x) \notin {Get(e.pre, x), 0, me}
-       THEN "NeverPartialContent"
-  ELSE IF e.k = "unlink" /\ \E x \in Paths : Get(e.pre, x) # 0 /\ Get(e.st, x) = 0 /\ Get(e.pre, x) # me
-       THEN "UnlinkOnlyOwn"
-  ELSE IF e.k \in {"rename", "reload"} /\ e.from # e.to
-          /\ Get(e.st, e.from) # Get(e.pre, e.from) /\ Get(e.pre, e.from) # me
-       THEN "RenameOnlyOwn"
+  ELSE IF Instant(e, e.mid) # "ok" THEN Instant(e, e.mid)
+  ELSE IF Instant(e, e.st) # "ok" THEN Instant(e, e.st)
   ELSE IF e.fin = "ok" /\ createlike /\ Live(Get(e.opre, tgt), me, al0)
        THEN "RefusesLiveForeign"
   ELSE IF e.fin \notin {"", "ok", "crash"} /\ createlike /\ DeadPid(Get(e.opre, tgt), al0)
@@ -70,37 +82,48 @@ PVerdict(e) ==
   ELSE "ok"
 
 (* ------------------------------- (C) ---------------------------------- *)
-ProjAgrees(e) ==
-  /\ file["p"] = e.st.p /\ file["q"] = e.st.q /\ litter = e.st.l
-  /\ alive = Range(e.st.al)
-  /\ <<fname[1], fname[2]>> = e.st.fn /\ <<mpid[1], mpid[2]>> = e.st.mp
+(* the projection of the NEXT model state agrees with what the event recorded *)
+ProjAgreesNext(e) ==
+  /\ file'["p"] = e.st.p /\ file'["q"] = e.st.q /\ Extra' = e.st.l
+  /\ alive' = Range(e.st.al)
+  /\ <<fname'[1], fname'[2]>> = e.st.fn /\ <<mpid'[1], mpid'[2]>> = e.st.mp
 
 Frozen == UNCHANGED vars
-After(e, what) == /\ cv' = IF ProjAgrees(e)' THEN "ok" ELSE "drift:" \o what
+After(e, what) == /\ cv' = IF ProjAgreesNext(e) THEN "ok" ELSE "drift:" \o what
                   /\ cstep' = l
 Drift(what) == Frozen /\ cv' = "drift:" \o what /\ cstep' = l
+
+(* explicit enabling conditions (ENABLED is avoided: TLC evaluates it in a context without tid) *)
+CanStart(i, k, to) ==
+  /\ i \in Inst /\ pc[i] = "idle"
+  /\ (IF stat[i] = "failed" THEN k = "unlink" ELSE TRUE)
+  /\ (IF k = "rename" THEN stat[i] = "held" ELSE TRUE)
+  /\ (IF k \in {"rename", "reload"} THEN to \in Paths ELSE to = fname[i])
+  /\ k \in {"create", "unlink", "validate", "rename", "reload"}
+CanCrash(i) == i \in Inst /\ pc[i] \in CrashPcs
+CanDie(p) == p \in alive /\ (IF p \in Inst THEN pc[p] = "idle" ELSE TRUE)
 
 Model(e) ==
   IF cv # "ok" THEN Frozen /\ UNCHANGED <<cv, cstep>>
   ELSE IF e.e = "start"
-  THEN IF ENABLED Start(e.i, e.k, e.to) THEN Start(e.i, e.k, e.to) /\ After(e, "start-state")
+  THEN IF CanStart(e.i, e.k, e.to) THEN Start(e.i, e.k, e.to) /\ After(e, "start-state")
        ELSE Drift("start-not-enabled")
   ELSE IF e.e = "sys"
   THEN IF pc[e.i] = e.s
        THEN /\ SysStep(e.i)
-            /\ cv' = IF ~ProjAgrees(e)' THEN "drift:state-after-" \o e.s
+            /\ cv' = IF ~ProjAgreesNext(e) THEN "drift:state-after-" \o e.s
                      ELSE IF last'.fin # e.fin THEN "drift:result-" \o e.s \o "-" \o e.fin
                      ELSE IF last'.rt # e.rt THEN "drift:return-" \o e.s
                      ELSE "ok"
             /\ cstep' = l
        ELSE Drift("call-" \o e.s \o "-at-" \o pc[e.i])
   ELSE IF e.e = "crash"
-  THEN IF ENABLED Crash(e.i) THEN Crash(e.i) /\ After(e, "crash-state") ELSE Drift("crash-not-enabled")
+  THEN IF CanCrash(e.i) THEN Crash(e.i) /\ After(e, "crash-state") ELSE Drift("crash-not-enabled")
   ELSE IF e.e = "foreign"
-  THEN IF ENABLED Foreign(e.x, e.c) THEN Foreign(e.x, e.c) /\ After(e, "foreign-state")
+  THEN IF file[e.x] # e.c THEN Foreign(e.x, e.c) /\ After(e, "foreign-state")
        ELSE Frozen /\ UNCHANGED <<cv, cstep>>                  \* rewriting the same content: no model step
   ELSE IF e.e = "die"
-  THEN IF ENABLED Die(e.c) THEN Die(e.c) /\ After(e, "die-state") ELSE Drift("die-not-enabled")
+  THEN IF CanDie(e.c) THEN Die(e.c) /\ After(e, "die-state") ELSE Drift("die-not-enabled")
   ELSE Drift("unknown-event")
 
 TStep ==
